@@ -4,4 +4,4 @@ From Coq Require Extraction.
 From Coq Require Import ExtrOcamlBasic.
 From Scenic Require Import C01.Prob C19.Choose.
 Extraction Language OCaml.
-Extraction "model.ml" paths run_main pick_pos shuffle_order Qred.
+Extraction "model.ml" paths run_main run_program pick_pos shuffle_order Qred.
